@@ -293,6 +293,7 @@ def translate(repo):
     out.append('Definition standard_gen : list (field * src_ feature) := [%s].' % '; '.join(standard))
     out.append('Definition to_ast_gen : list (field * tkind * field) := [%s].' % '; '.join(to_ast))
     out.append('Definition cache_key_gen : list field := [%s].' % '; '.join(cache_key_fields(repo, as_tuple)))
+    out.append('Definition converted_call_reentries_keep_options : nat := %d.' % reentries_keep_options(repo))
     return '\n'.join(out) + '\n'
 
 
@@ -338,6 +339,32 @@ def cache_key_fields(repo, as_tuple):
                 _fail(e, 'get_caching_key tuple element ' + ast.dump(e))
         return out
     _fail(v, 'get_caching_key return value ' + ast.dump(v))
+
+
+def reentries_keep_options(repo):
+    """malt/impl/api.py: every call of converted_call made from inside api.py that passes options passes the very
+    value it was given (`options=options`): unwrapping a functools.partial or entering through the convert wrapper does
+    not change the options the conversion runs under.  -> number of such call sites"""
+    path = os.path.join(repo, 'malt', 'impl', 'api.py')
+    with open(path) as f:
+        tree = ast.parse(f.read())
+    n = 0
+    for fn in ast.walk(tree):
+        if not isinstance(fn, ast.FunctionDef):
+            continue
+        for c in ast.walk(fn):
+            if isinstance(c, ast.Call) and isinstance(c.func, ast.Name) and c.func.id == 'converted_call':
+                kw = {k.arg: k.value for k in c.keywords}
+                if 'options' not in kw:
+                    _fail(c, 'converted_call re-entry without options')
+                v = kw['options']
+                if not (isinstance(v, ast.Name) and v.id == 'options'):
+                    raise Untranslatable('untranslatable: api.py:%s: converted_call is re-entered with options=%s, not with the options it was given'
+                                         % (c.lineno, ast.unparse(v)))
+                n += 1
+    if n < 2:
+        raise Untranslatable('untranslatable: api.py: expected the partial and the wrapper re-entries of converted_call, found %d' % n)
+    return n
 
 
 if __name__ == '__main__':
